@@ -254,20 +254,8 @@ func analyseVariant(ctx *Ctx, rule *Rule, ov map[string][]byte) (map[string]bool
 		}()
 		rule.Run(vp, vr)
 	}()
-	// instance minimums and anchors count as reports too
-	count := map[string]int{}
-	for _, o := range vr.Obligations {
-		count[o.Rule]++
-	}
+	vr.Finalize(vp)
 	keys := violatedKeys(vr)
-	for ru, mn := range vr.MinCounts {
-		if count[ru] < mn {
-			keys[ru+":instances"] = true
-		}
-	}
-	for i, pr := range vp.Problems {
-		keys[fmt.Sprintf("%s/anchors:%d:%s", rule.ID, i, pr)] = true
-	}
 	return keys, nil
 }
 
